@@ -45,6 +45,14 @@ func TestVerifC01Public(t *testing.T) {
 			}
 			m := s.Mode[0]
 			td.setMode(&m)
+			if i%3 == 0 {
+				// a foreign .json file with a short name in local/: the uploader looks
+				// at it as a report ready for upload (and gives up on it); the weeks'
+				// reports must be built and sent all the same
+				stray := verifrt.Pick(rnd, []string{"notes.json", "x.json", "a.json", "package.json", "zz.json"})
+				os.WriteFile(td.dir.LocalDir()+"/"+stray, []byte(`{"name":"something else"}`), 0o644)
+				c.c07.Hit("stray-json-in-local")
+			}
 			if s.Xs[0] >= 0 {
 				forceX(s.Xs[0])
 			}
@@ -54,6 +62,8 @@ func TestVerifC01Public(t *testing.T) {
 				err = Run(RunConfig{TelemetryDir: td.root, UploadURL: srv.srv.URL, Env: env, StartTime: s.Starts[0]})
 			})
 			c.c01.Eval()
+			c.c07.Eval()
+			c.c07.Distinct(fmt.Sprint(i))
 			replay := func(extra map[string]any) map[string]any {
 				mm := verifrt.CaseReplay(i, map[string]any{"start": fmt.Sprint(s.Starts[0]), "x": s.Xs[0]})
 				for k, v := range extra {
@@ -79,4 +89,7 @@ func TestVerifC01Public(t *testing.T) {
 	}
 	c.c01.Require("request-checked")
 	c.c01.Write()
+	c.c07.Rule = "the same runs judged for C07 (local reports equal the reference sums; files removed only once a report exists); a third of them with a short-named foreign .json file in local/. distinct = scenarios"
+	c.c07.Require("stray-json-in-local")
+	c.c07.Write()
 }
